@@ -142,6 +142,27 @@ impl<E: Engine> HighRateEncoder<E> {
 }
 
 // ======================================================================
+// HighRateEncoder / HighRateDecoder - VERIFICATION HOOKS
+
+#[cfg(feature = "verif-hooks")]
+impl<E: Engine> HighRateEncoder<E> {
+    /// Digest of the complete concrete state.
+    #[doc(hidden)]
+    pub fn verif_digest(&self) -> u64 {
+        self.work.verif_digest()
+    }
+}
+
+#[cfg(feature = "verif-hooks")]
+impl<E: Engine> HighRateDecoder<E> {
+    /// Digest of the complete concrete state.
+    #[doc(hidden)]
+    pub fn verif_digest(&self) -> u64 {
+        self.work.verif_digest()
+    }
+}
+
+// ======================================================================
 // HighRateDecoder - PUBLIC
 
 /// Reed-Solomon decoder using only high rate.
